@@ -161,6 +161,8 @@ def work(ctx, case):
 def _eval_only(ctx, case):
     if "hostile" in case:
         return hostile_viols(hostile(ctx, case["hostile"]))
+    if "sequence" in case:
+        return process_viols(process_level(ctx, case["sequence"]))
     return eval_case(ctx, case)[0]
 
 
@@ -261,6 +263,86 @@ def hostile(ctx, name):
     return best
 
 
+# whole processes (the interpreter's exit joins every non-daemon thread, which no in-process run can see): the server's answers
+# are a SEQUENCE, one per request the tool may make
+SEQUENCES = [["hang"], ["503", "hang"], ["500", "500", "hang"], ["refuse", "hang"], ["404", "hang"], ["slow"], ["ok", "hang"],
+             ["garbage", "hang"], ["timeout", "hang"]]
+PROC_SRC = r"""
+import sys, json, time, threading
+spec = json.loads(sys.argv[1])
+import requests
+seq = list(spec["seq"]); lock = threading.Lock()
+class R:
+    def __init__(self, code, body):
+        self.status_code, self.body, self.text = code, body, body
+    def raise_for_status(self):
+        if self.status_code >= 400:
+            raise requests.exceptions.HTTPError(str(self.status_code) + " Server Error", response=self)
+    def json(self):
+        try:
+            return json.loads(self.body)
+        except ValueError as e:
+            raise requests.exceptions.JSONDecodeError(str(e), self.body, 0)
+def get(*a, **k):
+    with lock:
+        kind = seq.pop(0) if seq else "hang"
+    if kind == "hang":
+        time.sleep(3600)
+    if kind == "slow":
+        time.sleep(0.5); kind = "ok"
+    if kind == "refuse":
+        raise requests.exceptions.ConnectionError("refused")
+    if kind == "timeout":
+        raise requests.exceptions.ConnectTimeout("timed out")
+    if kind == "garbage":
+        return R(200, "<html>")
+    if kind.isdigit():
+        return R(int(kind), '{"message": "x"}')
+    return R(200, '{"tag_name": "v99.9.9"}')
+requests.get = get
+from ascmhl.cli.ascmhl import mhltool_cli
+sys.argv = ["ascmhl", "info", spec["root"]]
+mhltool_cli()
+"""
+
+
+def process_level(ctx, seq):
+    """wall-clock time of a whole `ascmhl info` process whose update server answers with the given sequence, minus that of
+    the same process with a server that refuses at once"""
+    import subprocess
+    import sys
+    ok, bad, sealed = prepare(ctx)
+
+    def once(sq):
+        t0 = time.time()
+        try:
+            p = subprocess.run([sys.executable, "-c", PROC_SRC, json.dumps({"seq": sq, "root": ok})], capture_output=True, text=True,
+                               timeout=25, env=dict(os.environ, PYTHONHASHSEED="0"))
+            return time.time() - t0, p.returncode, p.stdout
+        except subprocess.TimeoutExpired:
+            return 25.0, None, ""
+    tb, eb, ob = once(["refuse"])
+    best = None
+    for attempt in range(2):
+        t, e, o = once(list(seq))
+        if best is None or t < best[0]:
+            best = (t, e, o)
+        if t - tb < 1.8:
+            break
+    t, e, o = best
+    return ("+".join(seq), round(t - tb, 3), e, eb, o.startswith(ob) if o is not None else False)
+
+
+def process_viols(res):
+    name, overhead, ex, bex, same = res
+    if overhead < 2.5 and ex == bex and same:
+        return []
+    return [Viol(PROP, "free-running-stall", {"mode": "whole-process"},
+                 f"a real `ascmhl info` process, server answers {name}: the process ended {overhead} s later than with a server that "
+                 f"refuses at once (killed after 25 s: {ex is None}), exit {ex} (command itself {bex}), stdout prefix ok {same}",
+                 {"sequence": name.split("+")})]
+
+
 def hostile_viols(res):
     name, overhead, ex, bex, same = res
     if overhead < 2.5 and ex == bex and same:
@@ -271,6 +353,8 @@ def hostile_viols(res):
 
 
 def work_free(ctx, mode):
+    if isinstance(mode, list):
+        return [("process", process_level(ctx, mode))]
     if mode in HOSTILE:
         return [("hostile", hostile(ctx, mode))]
     return free_running(ctx, mode)
@@ -321,7 +405,13 @@ def main(tier, seed):
                      else f"stateless, <= {case['bound']} preemptions"})
     for rr in runs[:: max(1, len(runs) // 5)]:
         eng.sample(rr)
-    free = eng.pmap(work_free, ["hang", "slow"] + list(HOSTILE), chunksize=1)
+    free = eng.pmap(work_free, ["hang", "slow"] + list(HOSTILE) + SEQUENCES, chunksize=1)
+    for lst in [x for x in free if x and x[0][0] == "process"]:
+        pv = process_viols(lst[0][1])
+        eng.outcome(("free-running", "whole process", "viol" if pv else "ok"))
+        eng.add_viols(pv)
+    procs = [list(x[0][1]) for x in free if x and x[0][0] == "process"]
+    free = [x for x in free if not (x and x[0][0] == "process")]
     for lst in [x for x in free if x and x[0][0] == "hostile"]:
         hv = hostile_viols(lst[0][1])
         eng.outcome(("free-running", "hostile version string", "viol" if hv else "ok"))
@@ -333,6 +423,7 @@ def main(tier, seed):
             if overhead >= 2.5 or ex != bex or not same:
                 eng.add_viols([Viol(PROP, "free-running-stall", {"mode": mode},
                                     f"real threads, {mode} server, {group}: overhead {overhead} s, exit {ex} (command itself {bex}), stdout prefix ok {same}")])
+    free = free + [[p] for p in procs]
     cov = {"states": nstates, "transitions": execs, "traces_validated_against_impl": execs, "exhaustive": not eng.caps,
            "preemption_bound": 2 if tier == "quick" else "unbounded", "server_behaviours": len(A) + 1, "commands": len(cmds) + (tier != "quick"),
            "free_running_pass": free, "runs": runs,
@@ -344,7 +435,8 @@ def main(tier, seed):
                    "virtual-clock event) and 4-5 commands (succeeding and failing, both groups); oracle: exit code and stdout of the "
                    "plain command (+ at most one trailing notice line), <= 1 s virtual blocking, no deadlock; separate free-running "
                    "pass with real threads and real time for a hanging and a slow server and for quick answers whose version string is "
-                   "hostile to a parser (long digit runs, thousands of segments, huge numbers, long garbage)"}
+                   "hostile to a parser (long digit runs, thousands of segments, huge numbers, long garbage), and for whole `ascmhl` processes "
+                   "(interpreter exit included) against 9 sequences of server answers (hang, 5xx then hang, refused then hang, ...)"}
     eng.assumptions.append("preemption inside a single source line or a C call is not interleaved (the shared state is two attribute stores)")
     return eng.finish(cov, _eval_only)
 
